@@ -68,7 +68,7 @@ M6b_NoSkipWhenAtomic == (K # <<>> /\ Top.f = "skip") => at = "N" \/ pc = "ret"
 \* before the matched prefix
 Claimed(att, which) == UNION {{att[i][which][j] : j \in 1..Len(att[i][which])} : i \in 1..Len(att)}
 M9_TrackerTruthful ==
-  pc = "done" =>
+  (RecLog /\ pc = "done") =>
     /\ \A r \in Claimed(trk.att, "p") : \E i \in 1..Len(log) : log[i].r = r /\ log[i].at = trk.pos /\ ~log[i].ok
     /\ \A r \in Claimed(trk.att, "n") : \E i \in 1..Len(log) : log[i].r = r /\ log[i].at = trk.pos /\ log[i].ok
     /\ (fin.ok /\ "fullok" \in DOMAIN fin /\ ~fin.fullok) => trk.pos >= fin.endc
